@@ -575,6 +575,26 @@ def gen_spec_route(rng, name, par, a, kind, scale):
     return "identity", None, route
 
 
+def gen_reject_cases(rng):
+    """requests validate_constraints must refuse, enumerated: scalar keyword + dict / list keyword (either registration order),
+    two dicts meeting on a mode directly or through the negative alias of its number, keys just outside [-n, n)"""
+    for n_const in (2, 3):
+        for m in range(n_const):
+            t = rng.choice([0.5, 1.0, 2.0])
+            combos = [
+                [["soft", "scalar", 0, t, [], False], ["non_negative", "dict", m, None, [], False]],      # dict keyword registered first
+                [["non_negative", "scalar", 0, None, [], False], ["soft", "dict", m, t, [], False]],      # scalar keyword registered first
+                [["l2_square", "scalar", 0, t, [], False], ["soft", "list", m, t, [], False]],
+                [["soft", "dict", m, t, [], False], ["hard", "dict", m, 2, [], True]],                    # m and m - n
+                [["simplex", "dict", m, t, [], True], ["smoothness", "list", m, t, [], False]],
+                [["soft", "dict", n_const, t, [], False]],                                                # key n
+                [["soft", "dict", -1, t, [], True]],                                                      # key -n - 1
+            ]
+            for specs in combos:
+                a = np.array(gen_values(rng, 3, "dyadic", "signed", 1.0))
+                yield "reject", None, a, {"specs": specs, "n_const": n_const, "order": rng.randrange(n_const)}, "dyadic", "reject"
+
+
 def gen_cases(tier, rng):
     """yields (name, par, array, route, kind, klass)"""
     nrep = 2 if tier == "quick" else 10
@@ -596,6 +616,8 @@ def gen_cases(tier, rng):
                         elif u < 0.45:
                             name, par, route = gen_spec_route(rng, name, par, a, kind, scale)
                     yield name, par, a, route, kind, klass
+        if rep < 2:
+            yield from gen_reject_cases(rng)
         for shape in (mshapes_q if tier == "quick" else mshapes_t):
             for klass in CLASSES + ["rank1"]:
                 for name in ("svt", "procrustes"):
